@@ -6,6 +6,7 @@ from pyvc.smt import NONE, Ref
 from pyvc.spec import Clause, RaisesClause, Spec
 
 Clause_of = Clause.of
+from pyvc.values import mk_int as mk_int_
 from pyvc.values import V, fresh_name, obj, parse_ty, Ty
 
 M = 'bubus/models.py'
@@ -181,8 +182,34 @@ def install(spec: Spec):
                      ('every_recorded_child_listed', "forall(lambda k, i: implies(k in self.event_results and 0 <= i and i < len(self.event_results[k].event_children), "
                                                      "self.event_results[k].event_children[i] in result), 'str', 'int')", ['C03', 'C10']),
                      ('only_recorded_children', "forall(lambda i: implies(0 <= i and i < len(result), exists(lambda k: k in self.event_results and result[i] in self.event_results[k].event_children, 'str')))", ['C03'])],
-            notes='view: concatenation of the per-result event_children lists in handler order (loop of list.extend); assumed, not verified')
+            notes='view: callers use a function term axiomatised by these clauses; the clauses are verified against the body under the key BaseEvent.event_children#body')
     P[('BaseEvent', 'event_children')] = 'BaseEvent.event_children'
+
+    # the body of the view, verified against the same three clauses (callers use the function term above, whose axioms are these clauses).
+    # Ghost `child_offsets[j]` = len(children) just before the j-th extend: the invariant is positional (no existential witness to find).
+    spec.ghosts['child_offsets'] = parse_ty('list[int]')
+
+    def children_extend_pre(ex, n):
+        cur = ex.lookup('children')
+        ex.ghost_set('child_offsets', ex.list_append(ex.ghost('child_offsets'), mk_int_(ex.list_len(cur))))
+
+    CHJ = 'loop_seq[j].event_children'
+    spec.fn('BaseEvent.event_children#body', file=M, qual='BaseEvent.event_children', params={'self': 'BaseEvent'}, returns='list[BaseEvent]', allocates=False,
+            wf_fields=['event_results'], locals={'children': 'list[BaseEvent]'}, ghost_modifies=['child_offsets'],
+            callsites={'children.extend': {'pre': children_extend_pre, 'ghost_writes': ['child_offsets']}},
+            loops={0: {'inv': [
+                ('one_offset_per_result_so_far', 'len(child_offsets) == old(len(child_offsets)) + loop_i', []),
+                ('offsets_within_the_list', "forall(lambda j: implies(0 <= j and j < loop_i, 0 <= child_offsets[old(len(child_offsets)) + j] and "
+                                            "child_offsets[old(len(child_offsets)) + j] + len(" + CHJ + ") <= len(children)))", []),
+                ('children_of_results_so_far_listed_in_place', "forall(lambda j, i: implies(0 <= j and j < loop_i and 0 <= i and i < len(" + CHJ + "), "
+                                                               "children[child_offsets[old(len(child_offsets)) + j] + i] is " + CHJ + "[i]), 'int', 'int')", ['C03', 'C10']),
+                ('only_children_of_results_so_far', "forall(lambda i: implies(0 <= i and i < len(children), exists(lambda j: 0 <= j and j < loop_i and children[i] in " + CHJ + ", 'int')))", ['C03']),
+            ]}},
+            ensures=[Clause_of(c) for c in [
+                ('no_results_no_children', 'implies(len(self.event_results) == 0, len(result) == 0)', ['C03']),
+                ('every_recorded_child_listed', "forall(lambda k, i: implies(k in self.event_results and 0 <= i and i < len(self.event_results[k].event_children), "
+                                                "self.event_results[k].event_children[i] in result), 'str', 'int')", ['C03', 'C10']),
+                ('only_recorded_children', "forall(lambda i: implies(0 <= i and i < len(result), exists(lambda k: k in self.event_results and result[i] in self.event_results[k].event_children, 'str')))", ['C03'])]])
 
     TWO_STATE = [
         ('only_pending_results_touched', "forall(lambda r: implies(old(r.status) != 'pending', r.status == old(r.status) and r.error is old(r.error) and r.completed_at is old(r.completed_at) "
@@ -398,8 +425,7 @@ def install_late(spec: Spec):
                     # `await event_result` past `except Exception`, whatever raise_if_any says; such results exist only on events whose
                     # completion is never signalled today (second witness of F5), so the accessor cannot get this far: declared, not a finding
                     RaisesClause('BaseException', label='recorded_non_exception_error', origin='call:EventResult.__await__.wait/recorded_error',
-                                 ensures=[('not_an_exception', 'not isinstance(raised, Exception)', ['C11'])]),
-                    RaisesClause('KeyError', label='dict_comprehension', caller_only=True)])
+                                 ensures=[('not_an_exception', 'not isinstance(raised, Exception)', ['C11'])])])
     spec.methods[('BaseEvent', 'event_results_filtered')] = 'BaseEvent.event_results_filtered'
 
     spec.fn('BaseEvent._event_result_is_truthy', file=M, qual='BaseEvent._event_result_is_truthy', params={'event_result': 'EventResult'}, returns='bool', allocates=False,
